@@ -68,6 +68,7 @@ class World(object):
         self.cs._get_versionhash = lambda: self.version_hash.get((self.sched.current() or {}).get('id'), 'scanner-v1')
         self.results = {}
         self.stores = {}          # op id -> {'version':, 'parse_clock':}
+        self.opens = {}           # op id -> (clock at which CacheStore() was called, clock at which it returned)
         self.rewrite(initial=True)
 
     def tick(self):
@@ -101,7 +102,7 @@ class World(object):
         s = self.sched
         s.yield_point('parse-read')
         v = self.read_source()
-        self.stores[oid] = {'version': v, 'parse_clock': s.clock}
+        self.stores[oid] = {'version': v, 'parse_clock': s.clock, 'scanner': self.version_hash.get(oid, 'scanner-v1')}
         data = mkdata(v, oid, self.size)
         cs = cs or self.prebuilt[oid]
         s.history.append((s.clock, oid, 'call', 'store'))
@@ -139,6 +140,24 @@ class World(object):
         except BaseException as e:
             s.history.append((s.clock, oid, 'raise', '%s: %s' % (type(e).__name__, e)))
 
+    def op_vload(self, oid):
+        """a scanner of the new version: CacheStore() (which purges or not, inside the schedule) followed by load"""
+        s = self.sched
+        self.version_hash[oid] = 'scanner-v2'
+        s.yield_point('vload-call')
+        try:
+            c_open = s.clock
+            cs = self.cs.CacheStore()
+            self.opens[oid] = (c_open, s.clock)
+            s.history.append((s.clock, oid, 'call', 'load'))
+            r = cs.load(self.src)
+            s.history.append((s.clock, oid, 'return', r))
+        except fsched.Abort:
+            raise
+        except BaseException as e:
+            s.history.append((s.clock, oid, 'call', 'load'))
+            s.history.append((s.clock, oid, 'raise', '%s: %s' % (type(e).__name__, e)))
+
     def op_rewrite(self, oid):
         self.rewrite()
 
@@ -173,6 +192,17 @@ def judge(world):
         if not data_ok(val):
             out.append(('torn', 'load returned an incomplete/altered object: %r' % (str(val)[:120],)))
             continue
+        storer = world.stores.get(val['by']) or {}
+        pubs = [pc for pc, po in publishes if po == val['by']]
+        change_begins = min([o[0] for o in world.opens.values()] + [cc for (cc, oo, kk, vv) in s.history if kk == 'call' and vv == 'purge'] + [float('inf')])
+        if oid in world.opens and pubs and pubs[0] < change_begins and \
+                storer.get('scanner', 'scanner-v1') != world.version_hash.get(oid, 'scanner-v1'):
+            # "a change of scanner version discards all entries": what was in the cache before the first process of the new
+            # version began to open it must be gone for every new-version process that has opened it (entries that
+            # old-version processes publish after that moment are not covered by the statement)
+            out.append(('other-version-entry', 'a %s process opened the cache during [%d,%d] and then loaded at [%d,%d] the entry that %s (a %s process) '
+                        'had published at %d' % (world.version_hash.get(oid, 'scanner-v1'), world.opens[oid][0], world.opens[oid][1], c0, c, val['by'],
+                                                 storer.get('scanner', 'scanner-v1'), pubs[0])))
         v = val['v']
         start = [cl for cl, vv in vers if vv == v][0]
         nxt = [cl for cl, vv in vers if vv == v + 1]
@@ -233,7 +263,7 @@ def run_schedule(spec, prefix, rng=None, workroot=None):
             oid = '%s%d' % (name, i)
             if name in ('store', 'load'):
                 w.prebuilt[oid] = w.new_store()
-            fn = {'store': w.op_store, 'load': w.op_load, 'purge': w.op_purge, 'rewrite': w.op_rewrite}[name]
+            fn = {'store': w.op_store, 'load': w.op_load, 'purge': w.op_purge, 'rewrite': w.op_rewrite, 'vload': w.op_vload}[name]
             ops.append((oid, (lambda fn=fn, oid=oid: fn(oid))))
         w.tick()
         ok = w.sched.run(ops)
@@ -315,11 +345,77 @@ class Killer(object):
 fsched.ENV.sched = Killer()
 fsched.ENV.chunk = spec['chunk']
 fsched._stamp = lambda p: None
+if spec.get('vhash'):
+    st['cs']._get_versionhash = lambda: spec['vhash']
 cs = st['cs'].CacheStore()
-cs.store(spec['src'], c18.mkdata(spec['version'], 'victim', spec['size']))
+if spec.get('mode') != 'open-only':
+    cs.store(spec['src'], c18.mkdata(spec['version'], spec.get('by', 'victim'), spec['size']))
 sys.stdout.write('COMPLETED %%d\n' %% count[0]); sys.stdout.flush()
 os._exit(0)
 '''
+
+
+def vcrash_case(case):
+    """a scanner of a new version is killed at step k while it opens a cache that holds an entry of the old version;
+    another scanner of the new version then opens the cache and loads"""
+    seed, crossfs, kill_at, size = case
+    st = setup_subject()
+    root = tempfile.mkdtemp(prefix='vt-c18v-', dir=SHM)
+    tmp = os.path.join(root, 'tmp')
+    os.makedirs(tmp, exist_ok=True)
+    res = {'viol': [], 'kill_at': kill_at}
+    try:
+        cachehome = os.path.join(root, 'cache')
+        os.makedirs(cachehome)
+        src = os.path.join(root, 'Dep-1.0.gir')
+        with open(src, 'w') as f:
+            f.write('<gir version 1/>')
+        old = time.time() - 100
+        os.utime(src, (old, old))
+        code = CRASH_CHILD % {'path': [core.VERIF, os.path.join(core.VERIF, '.deps')]}
+        env = dict(os.environ, VT_REPO=core.REPO, PYTHONHASHSEED='0')
+        env.pop('GI_SCANNER_DISABLE_CACHE', None)
+        script = os.path.join(root, 'g-ir-scanner-victim.py')
+        with open(script, 'w') as f:
+            f.write(code)
+        base = {'cachehome': cachehome, 'tmp': tmp, 'src': src, 'chunk': 64, 'version': 1, 'size': size}
+        # the old scanner fills the cache
+        p = subprocess.run([sys.executable, script, json.dumps(dict(base, kill_at=0, vhash='old-scanner', by='old'))], capture_output=True, text=True, timeout=60, env=env)
+        if p.returncode != 0:
+            res['harness'] = 'old-version store failed: %r' % (p.stderr[-300:],)
+            return res
+        # the new scanner is killed while opening the cache
+        p = subprocess.run([sys.executable, script, json.dumps(dict(base, kill_at=kill_at, vhash='new-scanner', mode='open-only'))], capture_output=True, text=True, timeout=60, env=env)
+        res['child'] = (p.returncode, p.stdout.strip()[-200:], p.stderr.strip()[-300:])
+        if p.returncode not in (0, 137):
+            res['harness'] = 'crash child failed: %r' % (res['child'],)
+            return res
+        res['killed'] = p.returncode == 137
+        res['label'] = 'v:' + (p.stdout.strip().split(' ')[1] if p.stdout.startswith('KILLED-AT') else 'completed')
+        fsched.ENV.sched = None
+        os.environ['XDG_CACHE_HOME'] = cachehome
+        tempfile.tempdir = tmp
+        saved = st['cs']._get_versionhash
+        st['cs']._get_versionhash = lambda: 'new-scanner'
+        try:
+            cs = st['cs'].CacheStore()
+            r = cs.load(src)
+            res['first_load'] = None if r is None else 'data'
+            if r is not None:
+                res['viol'].append(('other-version-entry-after-crash', 'a new-version scanner killed at step %d (%s) of opening the cache leaves it so that '
+                                    'the next new-version scanner loads the entry written by %r' % (kill_at, res['label'], r.get('by') if isinstance(r, dict) else r)))
+            cs.store(src, mkdata(1, 'survivor', size))
+            r2 = cs.load(src)
+            if not (data_ok(r2) and r2['by'] == 'survivor'):
+                res['viol'].append(('cache-unusable-after-crash', 'after a crash at step %d (%s) of the version purge: store+load gives %r' % (kill_at, res['label'], str(r2)[:100])))
+        except Exception as e:
+            res['viol'].append(('exception-after-crash:' + type(e).__name__, 'crash at step %d (%s) of the version purge: survivor raised %r' % (kill_at, res['label'], e)))
+        finally:
+            st['cs']._get_versionhash = saved
+            tempfile.tempdir = None
+        return res
+    finally:
+        shutil.rmtree(root, ignore_errors=True)
 
 
 def crash_case(case):
@@ -409,6 +505,22 @@ tempfile.tempdir = spec['tmp']
 ast = G['ast']
 rng = random.Random(spec['seed'])
 log = open(spec['log'], 'a', buffering=1)
+# observability for the offline checker (wrappers in this worker process, the repository is not edited): which parse a
+# process is about to store and when the store returned.  A stale load is only explainable by the recorded known finding
+# (a scanner that parsed before the source changed stores its old parse afterwards) if such a store event exists.
+from giscanner import cachestore as _csm
+_orig_store = _csm.CacheStore.store
+def _logged_store(self, filename, data):
+    try:
+        mk = [n for n in data.get_namespace().names if n.startswith('Marker')]
+    except Exception:
+        mk = []
+    log.write(json.dumps({'ev': 'store-begin', 'pid': os.getpid(), 'src': os.path.basename(filename), 't': time.monotonic_ns(), 'marker': mk}) + '\n')
+    try:
+        return _orig_store(self, filename, data)
+    finally:
+        log.write(json.dumps({'ev': 'store-end', 'pid': os.getpid(), 'src': os.path.basename(filename), 't': time.monotonic_ns(), 'marker': mk}) + '\n')
+_csm.CacheStore.store = _logged_store
 deadline = time.time() + spec['seconds']
 n = 0
 while time.time() < deadline:
@@ -497,6 +609,24 @@ def stress(seed, seconds, nworkers, crossfs):
             except subprocess.TimeoutExpired:
                 p.kill()
         # offline check with interval semantics
+        store_events = collections.defaultdict(list)          # (src, version) -> [(t_begin, t_end or inf)]
+        for log in logs:
+            if not os.path.exists(log):
+                continue
+            open_begin = {}
+            for line in open(log):
+                try:
+                    rec = json.loads(line)
+                except ValueError:
+                    continue
+                if rec.get('ev') == 'store-begin' and len(rec.get('marker') or []) == 1:
+                    open_begin[(rec['pid'], rec['src'])] = (rec['t'], int(rec['marker'][0][len('Marker'):]))
+                elif rec.get('ev') == 'store-end' and (rec['pid'], rec['src']) in open_begin:
+                    t0, v = open_begin.pop((rec['pid'], rec['src']))
+                    store_events[(rec['src'], v)].append((t0, rec['t']))
+            for (pid, srcname), (t0, v) in open_begin.items():        # killed inside the store: may have published at any later time
+                store_events[(srcname, v)].append((t0, float('inf')))
+        out['stores'] = sum(len(x) for x in store_events.values())
         for log in logs:
             if not os.path.exists(log):
                 continue
@@ -505,6 +635,8 @@ def stress(seed, seconds, nworkers, crossfs):
                     rec = json.loads(line)
                 except ValueError:
                     continue   # torn last line of a killed worker
+                if 'ev' in rec:
+                    continue
                 out['loads'] += 1
                 src = [s for s in sources if os.path.basename(s) == rec['src']][0]
                 if 'exc' in rec:
@@ -522,8 +654,12 @@ def stress(seed, seconds, nworkers, crossfs):
                 if any(w[0] <= rec['t1'] and w[1] >= rec['t0'] for w in ws):
                     out['overlap'] += 1
                 if rec['t0'] > ended or rec['t1'] < began:
-                    out['viol'].append(('stress-stale', 'load [%d,%d] returned version %d, possibly current only within [%d,%s]' % (
-                        rec['t0'], rec['t1'], v, began, ended)))
+                    # explained by the recorded finding iff some process stored its parse of v after v+1 had begun to exist
+                    # (and before this load ended); then the entry is newer than the source and stays valid
+                    late = [e for e in store_events.get((rec['src'], v), []) if e[1] >= (nxt[0][0] if nxt else float('inf')) and e[0] <= rec['t1']]
+                    key = 'stale:store-after-source-change' if (late and rec['t0'] > ended) else 'stress-stale'
+                    out['viol'].append((key, 'load [%d,%d] returned version %d, possibly current only within [%d,%s]%s' % (
+                        rec['t0'], rec['t1'], v, began, ended, '; a store of that parse was in progress or finished after the source changed (%d such stores)' % len(late) if late else '')))
         return out
     finally:
         shutil.rmtree(root, ignore_errors=True)
@@ -533,9 +669,10 @@ def stress(seed, seconds, nworkers, crossfs):
 
 # ---- driver -----------------------------------------------------------------------------------------------
 PAIRS = [['load', 'store'], ['store', 'store'], ['load', 'load'], ['load', 'purge'], ['store', 'purge'], ['load', 'rewrite'],
-         ['store', 'rewrite']]
+         ['store', 'rewrite'], ['purge', 'vload'], ['vload', 'vload']]
 TRIPLES = [['load', 'store', 'rewrite'], ['load', 'store', 'store'], ['store', 'store', 'rewrite'], ['load', 'store', 'purge'],
-           ['load', 'load', 'store'], ['store', 'purge', 'rewrite'], ['load', 'purge', 'store']]
+           ['load', 'load', 'store'], ['store', 'purge', 'rewrite'], ['load', 'purge', 'store'], ['purge', 'vload', 'vload'],
+           ['purge', 'vload', 'store']]
 
 
 def work(item):
@@ -546,11 +683,11 @@ def work(item):
     elif kind == 'rnd':
         _, spec, seed, n = item
         r = explore_random(spec, seed, n)
-    elif kind == 'crash':
-        r0 = crash_case(item[1])
+    elif kind in ('crash', 'vcrash'):
+        r0 = crash_case(item[1]) if kind == 'crash' else vcrash_case(item[1])
         r = {'runs': 1, 'distinct': 1, 'exhausted': False, 'viol': [(k, w, {'case': item[1], 'child': r0.get('child')}) for k, w in r0['viol']],
              'crash': {'killed': r0.get('killed'), 'label': r0.get('label'), 'first_load': r0.get('first_load'), 'harness': r0.get('harness')}}
-    r['item'] = [kind, item[1] if kind != 'crash' else list(item[1])]
+    r['item'] = [kind, item[1] if kind not in ('crash', 'vcrash') else list(item[1])]
     for v in r['viol']:
         pass
     return r
@@ -578,6 +715,8 @@ def run(args):
     for crossfs in (False, True):
         for k in range(1, (14 if not crossfs else 30)):
             items.append(('crash', (args.seed, crossfs, k, 500)))
+    for k in range(1, 12):
+        items.append(('vcrash', (args.seed, False, k, 500)))
     rng = core.rng_for(args.seed, 'c18-order')
     rng.shuffle(items)
     total_sched = 0
@@ -607,7 +746,7 @@ def run(args):
                 continue
             crash_labels['%s|crossfs=%d|%s' % (c.get('label'), item[1][1], c.get('first_load'))] += 1
             chk.cls('crash|%s|crossfs=%d' % (c.get('label'), item[1][1]))
-            chk.monitor_hits['crash_points'] += 1 if c.get('killed') else 0
+            chk.monitor_hits['crash_points' if kind == 'crash' else 'version_purge_crash_points'] += 1 if c.get('killed') else 0
         for key, what, replay in r['viol']:
             chk.violation(key, what, replay)
         if len(chk.samples) < 3 and kind == 'ex':
@@ -620,6 +759,7 @@ def run(args):
         chk.monitor_hits['stress_loads'] += b['loads']
         chk.monitor_hits['stress_loads_overlapping_a_source_change'] += b['overlap']
         chk.monitor_hits['stress_kills'] += b['kills']
+        chk.monitor_hits['stress_stores_observed'] += b.get('stores', 0)
         chk.cls('stress|crossfs=%d' % crossfs)
         seen = collections.Counter()
         for key, what in b['viol']:
@@ -630,6 +770,7 @@ def run(args):
     chk.extra.update(distinct_schedules=distinct, crash_outcomes=dict(crash_labels), harness_failures=hf)
     chk.require(chk.monitor_hits['schedules_judged'] > 0, 'no schedule judged')
     chk.require(chk.monitor_hits['crash_points'] > 5, 'crash injection did not kill the store')
+    chk.require(chk.monitor_hits['version_purge_crash_points'] > 2, 'crash injection did not kill the version purge')
     chk.require(chk.monitor_hits['stress_loads'] > 50, 'stress produced too few loads')
     chk.require(hf <= 2, 'harness failures: %d' % hf)
     chk.assumptions = ['scheduler workload replaces cachestore._get_versionhash by a per-operation constant (the real function is exercised by the stress workload)',
